@@ -48,6 +48,7 @@ func linGen(r *rand.Rand, thorough bool) dbCase {
 		}
 		knobs := genKnobs(r)
 		knobs.Advance = pick(r, 1, 1, 2, 4)
+		knobs.UnlockYield = r.Intn(3) == 0
 		c.Sessions = append(c.Sessions, dbSession{Opts: opts, Clients: clients, Knobs: knobs})
 	}
 	return c
